@@ -237,6 +237,11 @@ pub fn registry() -> Vec<Entry> {
         BTreeMap<String, [u8; 3]>, Option<(Nat, Int)>, Vec<Option<Vec<Option<Int>>>>, Generic<Generic<u8>>,
         Generic<List>, BTreeMap<Principal, Vec<MyFunc>>, Vec<ByteBuf>, BTreeMap<String, ByteBuf>,
     );
+    under_seq!(v; NtBool, NtU8, NtI16, NtU32, NtU64, NtF64, NtNat, NtText);
+    reg!(v;
+        Vec<Box<u32>>, Vec<Box<f64>>, Vec<Box<u8>>, Vec<Box<bool>>, [Box<i16>; 3], Vec<Box<NtU32>>, Vec<Box<Nat>>,
+        BTreeMap<String, Vec<NtU32>>, Vec<Vec<NtU64>>, Vec<Box<usize>>, Option<Vec<Box<i64>>>,
+    );
     v
 }
 
